@@ -1,4 +1,383 @@
-import WnVerif.Model.Api
+/-
+C19 — loading an ILI index only updates ILI status and definitions.
+Theorems over `addIli` (`Model/Remove.lean`, mirroring `_add.py:_add_ili`) for every database
+and every list of index rows (duplicates allowed: the last row for an id wins).
+-/
+import WnVerif.Model.Query
 namespace WnVerif.Props.C19
-theorem placeholder_true : True := trivial
+open WnVerif.Db
+
+/-! ### frame: nothing but `ilis` and `ili_statuses` is written -/
+
+/-- every table other than `ilis` and `ili_statuses` -/
+def Same (a b : Db) : Prop :=
+  a.lexicons = b.lexicons ∧ a.deps = b.deps ∧ a.exts = b.exts ∧ a.entries = b.entries ∧ a.forms = b.forms ∧
+  a.prons = b.prons ∧ a.tags = b.tags ∧ a.synsets = b.synsets ∧ a.synrels = b.synrels ∧ a.defs = b.defs ∧
+  a.synexs = b.synexs ∧ a.senses = b.senses ∧ a.senserels = b.senserels ∧ a.sensesynrels = b.sensesynrels ∧
+  a.adjs = b.adjs ∧ a.sensexs = b.sensexs ∧ a.counts = b.counts ∧ a.sbs = b.sbs ∧ a.sbsenses = b.sbsenses ∧
+  a.pilis = b.pilis ∧ a.reltypes = b.reltypes ∧ a.lexfiles = b.lexfiles
+
+theorem Same.refl (a : Db) : Same a a := by unfold Same; simp
+theorem Same.trans {a b c : Db} (h1 : Same a b) (h2 : Same b c) : Same a c := by
+  unfold Same at *
+  obtain ⟨a1, a2, a3, a4, a5, a6, a7, a8, a9, a10, a11, a12, a13, a14, a15, a16, a17, a18, a19, a20, a21, a22⟩ := h1
+  obtain ⟨b1, b2, b3, b4, b5, b6, b7, b8, b9, b10, b11, b12, b13, b14, b15, b16, b17, b18, b19, b20, b21, b22⟩ := h2
+  exact ⟨a1.trans b1, a2.trans b2, a3.trans b3, a4.trans b4, a5.trans b5, a6.trans b6, a7.trans b7, a8.trans b8, a9.trans b9,
+    a10.trans b10, a11.trans b11, a12.trans b12, a13.trans b13, a14.trans b14, a15.trans b15, a16.trans b16, a17.trans b17,
+    a18.trans b18, a19.trans b19, a20.trans b20, a21.trans b21, a22.trans b22⟩
+
+theorem iliStep_same (db : Db) (r : IliRow) : Same (iliStep db r) db := by
+  unfold iliStep
+  split <;> (unfold Same; simp)
+
+theorem iliStep_statuses (db : Db) (r : IliRow) : (iliStep db r).ilistatuses = db.ilistatuses := by
+  unfold iliStep; split <;> rfl
+
+theorem fold_same (rows : List IliRow) : ∀ db, Same (rows.foldl iliStep db) db ∧ (rows.foldl iliStep db).ilistatuses = db.ilistatuses := by
+  induction rows with
+  | nil => intro db; exact ⟨Same.refl _, rfl⟩
+  | cons r t ih =>
+    intro db
+    simp only [List.foldl_cons]
+    exact ⟨(ih _).1.trans (iliStep_same db r), (ih _).2.trans (iliStep_statuses db r)⟩
+
+/-- lexicon content, which synsets carry which ILI row, proposed ILIs, relation types and
+lexfiles are all unchanged -/
+theorem C19_frame (db : Db) (rows : List IliRow) : Same (addIli db rows) db := by
+  unfold addIli
+  exact (fold_same rows _).1.trans (by unfold addIliStatuses Same; simp)
+
+/-! ### existing ILI rows keep their rowid and id, so every synset's ILI link resolves as before -/
+
+theorem iliStep_prefix (db : Db) (r : IliRow) :
+    ∃ extra, (iliStep db r).ilis.map (fun x => (x.rowid, x.id, x.md)) = db.ilis.map (fun x => (x.rowid, x.id, x.md)) ++ extra := by
+  unfold iliStep
+  split
+  · refine ⟨[], ?_⟩
+    simp only [List.append_nil, List.map_map]
+    apply List.map_congr_left
+    intro x _
+    simp only [Function.comp]
+    split <;> rfl
+  · exact ⟨[(nextId (db.ilis.map (·.rowid)), r.ili, none)], by simp⟩
+
+theorem C19_ili_rows_prefix (db : Db) (rows : List IliRow) :
+    ∃ extra, (addIli db rows).ilis.map (fun x => (x.rowid, x.id, x.md)) = db.ilis.map (fun x => (x.rowid, x.id, x.md)) ++ extra := by
+  unfold addIli
+  have : ∀ (rows : List IliRow) (d : Db), ∃ extra, (rows.foldl iliStep d).ilis.map (fun x => (x.rowid, x.id, x.md)) =
+      d.ilis.map (fun x => (x.rowid, x.id, x.md)) ++ extra := by
+    intro rows
+    induction rows with
+    | nil => intro d; exact ⟨[], by simp⟩
+    | cons r t ih =>
+      intro d
+      obtain ⟨e1, h1⟩ := iliStep_prefix d r
+      obtain ⟨e2, h2⟩ := ih (iliStep d r)
+      exact ⟨e1 ++ e2, by simp only [List.foldl_cons]; rw [h2, h1, List.append_assoc]⟩
+  exact this rows _
+
+theorem find_prefix {α} (p : α → Bool) (l e : List α) (x : α) (h : l.find? p = some x) : (l ++ e).find? p = some x := by
+  rw [List.find?_append, h]; rfl
+
+/-- the ILI id a synset's `ili_rowid` resolves to does not change -/
+theorem C19_links_resolve_same (db : Db) (rows : List IliRow) (k : Nat) (i : String)
+    (h : iliIdOf db (some k) = some i) : iliIdOf (addIli db rows) (some k) = some i := by
+  obtain ⟨extra, hp⟩ := C19_ili_rows_prefix db rows
+  unfold iliIdOf at *
+  simp only at *
+  have key : ∀ (l : List RIli), (l.find? (fun x => x.rowid == k)).map (·.id) =
+      ((l.map (fun x => (x.rowid, x.id, x.md))).find? (fun t => t.1 == k)).map (·.2.1) := by
+    intro l
+    induction l with
+    | nil => simp
+    | cons a t ih =>
+      simp only [List.find?_cons, List.map_cons]
+      split <;> simp_all
+  rw [key] at h ⊢
+  rw [hp]
+  cases hf : (db.ilis.map (fun x => (x.rowid, x.id, x.md))).find? (fun t => t.1 == k) with
+  | none => rw [hf] at h; simp at h
+  | some t => rw [find_prefix _ _ _ _ hf]; rw [hf] at h; exact h
+
+/-! ### every listed ILI ends up with the file's status and definition (last row wins) -/
+
+/-- the last row of the file for an id -/
+def lastMatch (rows : List IliRow) (id : String) : Option IliRow :=
+  rows.foldl (fun acc r => if r.ili == id then some r else acc) none
+
+theorem lastMatch_append (rows : List IliRow) (r : IliRow) (id : String) :
+    lastMatch (rows ++ [r]) id = if r.ili == id then some r else lastMatch rows id := by
+  simp [lastMatch, List.foldl_append]
+
+def stOf (sts : List (Nat × String)) (r : IliRow) : Nat := (lookupId sts (r.status.getD "active")).getD 0
+
+theorem rev_ind {α} {P : List α → Prop} (hnil : P []) (snoc : ∀ l a, P l → P (l ++ [a])) : ∀ l, P l := by
+  intro l
+  have : ∀ (r : List α), P r.reverse := by
+    intro r
+    induction r with
+    | nil => exact hnil
+    | cons a t ih => rw [List.reverse_cons]; exact snoc _ _ ih
+  simpa using this l.reverse
+
+theorem fold_last (sts : List (Nat × String)) (rows : List IliRow) : ∀ (db : Db), db.ilistatuses = sts →
+    ∀ x ∈ (rows.foldl iliStep db).ilis,
+      match lastMatch rows x.id with
+      | some r => x.status = stOf sts r ∧ x.definition = r.definition
+      | none => x ∈ db.ilis := by
+  induction rows using rev_ind with
+  | hnil => intro db _ x hx; simpa [lastMatch] using hx
+  | snoc init r ih =>
+    intro db hs x hx
+    rw [List.foldl_append] at hx
+    simp only [List.foldl_cons, List.foldl_nil] at hx
+    rw [lastMatch_append]
+    have hst : (List.foldl iliStep db init).ilistatuses = sts := by rw [(fold_same init db).2, hs]
+    have ihD := ih db hs
+    generalize List.foldl iliStep db init = D at hx hst ihD
+    unfold iliStep at hx
+    split at hx
+    · simp only [List.mem_map] at hx
+      obtain ⟨y, hy, rfl⟩ := hx
+      by_cases hm : y.id = r.ili
+      · simp [hm, stOf, hst]
+      · have hm' : (y.id == r.ili) = false := by simpa using hm
+        have hm'' : (r.ili == y.id) = false := beq_eq_false_iff_ne.mpr (fun e => hm e.symm)
+        simp only [hm', hm'', Bool.false_eq_true, if_false]
+        exact ihD y hy
+    · rename_i hany
+      simp only [List.mem_append, List.mem_singleton] at hx
+      rcases hx with hx | rfl
+      · have hne : (r.ili == x.id) = false := by
+          simp only [List.any_eq_true, not_exists, not_and, Bool.not_eq_true] at hany
+          have := hany x hx
+          exact beq_eq_false_iff_ne.mpr (fun e => (beq_eq_false_iff_ne.mp this) e.symm)
+        simp only [hne, Bool.false_eq_true, if_false]
+        exact ihD x hx
+      · simp [stOf, hst]
+
+theorem addIli_statuses (db : Db) (rows : List IliRow) :
+    (addIli db rows).ilistatuses = (addIliStatuses db rows).ilistatuses := by
+  unfold addIli; exact (fold_same rows _).2
+
+/-- after loading, every ILI listed in the file carries the status and definition of its last row -/
+theorem C19_listed_updated (db : Db) (rows : List IliRow) (x : RIli) (hx : x ∈ (addIli db rows).ilis)
+    (r : IliRow) (hr : lastMatch rows x.id = some r) :
+    x.status = stOf (addIli db rows).ilistatuses r ∧ x.definition = r.definition := by
+  have := fold_last (addIliStatuses db rows).ilistatuses rows (addIliStatuses db rows) rfl x hx
+  rw [hr] at this
+  rw [addIli_statuses]
+  exact this
+
+/-- an ILI that the file does not list is left exactly as it was -/
+theorem C19_unlisted_untouched (db : Db) (rows : List IliRow) (x : RIli) (hx : x ∈ (addIli db rows).ilis)
+    (hr : lastMatch rows x.id = none) : x ∈ db.ilis := by
+  have := fold_last (addIliStatuses db rows).ilistatuses rows (addIliStatuses db rows) rfl x hx
+  rw [hr] at this
+  exact this
+
+/-- every id of the file is present afterwards (unknown ILIs are created) -/
+theorem iliStep_has (db : Db) (r : IliRow) : ∃ x ∈ (iliStep db r).ilis, x.id = r.ili := by
+  unfold iliStep
+  split
+  · rename_i hany
+    simp only [List.any_eq_true, beq_iff_eq] at hany
+    obtain ⟨y, hy, hyi⟩ := hany
+    refine ⟨_, List.mem_map.mpr ⟨y, hy, rfl⟩, ?_⟩
+    simp [hyi]
+  · exact ⟨⟨nextId (db.ilis.map (·.rowid)), r.ili, (lookupId db.ilistatuses (r.status.getD "active")).getD 0, r.definition, none⟩, by simp, rfl⟩
+
+theorem iliStep_keeps_ids (db : Db) (r : IliRow) (i : String) (h : ∃ x ∈ db.ilis, x.id = i) :
+    ∃ x ∈ (iliStep db r).ilis, x.id = i := by
+  obtain ⟨y, hy, hyi⟩ := h
+  unfold iliStep
+  split
+  · refine ⟨_, List.mem_map.mpr ⟨y, hy, rfl⟩, ?_⟩
+    split <;> simpa using hyi
+  · exact ⟨y, by simp [hy], hyi⟩
+
+theorem fold_keeps_ids (rows : List IliRow) : ∀ (db : Db) (i : String), (∃ x ∈ db.ilis, x.id = i) →
+    ∃ x ∈ (rows.foldl iliStep db).ilis, x.id = i := by
+  induction rows with
+  | nil => intro db i h; exact h
+  | cons r t ih => intro db i h; exact ih _ i (iliStep_keeps_ids db r i h)
+
+theorem C19_listed_present (db : Db) (rows : List IliRow) (r : IliRow) (hr : r ∈ rows) :
+    ∃ x ∈ (addIli db rows).ilis, x.id = r.ili := by
+  unfold addIli
+  generalize addIliStatuses db rows = d
+  induction rows generalizing d with
+  | nil => simp at hr
+  | cons a t ih =>
+    simp only [List.foldl_cons]
+    rcases List.mem_cons.mp hr with rfl | hr
+    · exact fold_keeps_ids t _ _ (iliStep_has d r)
+    · exact ih hr _
+
+/-- ILI ids stay unique -/
+theorem iliStep_nodup (db : Db) (r : IliRow) (h : (db.ilis.map (·.id)).Nodup) : ((iliStep db r).ilis.map (·.id)).Nodup := by
+  unfold iliStep
+  split
+  · have : (db.ilis.map (fun x => if x.id == r.ili then { x with status := (lookupId db.ilistatuses (r.status.getD "active")).getD 0, definition := r.definition } else x)).map (·.id) = db.ilis.map (·.id) := by
+      rw [List.map_map]
+      apply List.map_congr_left
+      intro x _
+      simp only [Function.comp]
+      split <;> rfl
+    simp only
+    rw [this]; exact h
+  · rename_i hany
+    simp only [List.map_append, List.map_cons, List.map_nil]
+    rw [List.nodup_append]
+    refine ⟨h, by simp, ?_⟩
+    intro a ha b hb
+    simp at hb; subst hb
+    intro e; subst e
+    apply hany
+    simp only [List.any_eq_true, beq_iff_eq]
+    obtain ⟨y, hy, hyi⟩ := List.mem_map.mp ha
+    exact ⟨y, hy, hyi⟩
+
+theorem C19_ids_unique (db : Db) (rows : List IliRow) (h : (db.ilis.map (·.id)).Nodup) :
+    ((addIli db rows).ilis.map (·.id)).Nodup := by
+  unfold addIli
+  have : ∀ (rows : List IliRow) (d : Db), (d.ilis.map (·.id)).Nodup → ((rows.foldl iliStep d).ilis.map (·.id)).Nodup := by
+    intro rows
+    induction rows with
+    | nil => intro d h; exact h
+    | cons r t ih => intro d h; exact ih _ (iliStep_nodup d r h)
+  exact this rows _ h
+
+/-! ### loading the same file again changes nothing -/
+
+def upd (sts : List (Nat × String)) (r : IliRow) (x : RIli) : RIli :=
+  if x.id == r.ili then { x with status := stOf sts r, definition := r.definition } else x
+
+theorem upd_id (sts : List (Nat × String)) (r : IliRow) (x : RIli) : (upd sts r x).id = x.id := by
+  unfold upd; split <;> rfl
+
+theorem iliStep_update (db : Db) (r : IliRow) (h : db.ilis.any (fun x => x.id == r.ili) = true) :
+    iliStep db r = { db with ilis := db.ilis.map (upd db.ilistatuses r) } := by
+  unfold iliStep
+  simp only [h, if_true]
+  rfl
+
+theorem fold_update (rows : List IliRow) : ∀ (db : Db), (∀ r ∈ rows, db.ilis.any (fun x => x.id == r.ili) = true) →
+    rows.foldl iliStep db = { db with ilis := db.ilis.map (fun x => rows.foldl (fun x r => upd db.ilistatuses r x) x) } := by
+  induction rows with
+  | nil => intro db _; simp
+  | cons r t ih =>
+    intro db h
+    simp only [List.foldl_cons]
+    rw [iliStep_update db r (h r List.mem_cons_self)]
+    rw [ih]
+    · simp only [List.map_map]
+      rfl
+    · intro r' hr'
+      have := h r' (List.mem_cons_of_mem _ hr')
+      simp only [List.any_eq_true, List.any_map, Function.comp] at this ⊢
+      obtain ⟨y, hy, hyi⟩ := this
+      exact ⟨y, hy, by rw [upd_id]; exact hyi⟩
+
+theorem applyRows_char (sts : List (Nat × String)) (rows : List IliRow) : ∀ (x : RIli),
+    rows.foldl (fun x r => upd sts r x) x =
+      match lastMatch rows x.id with
+      | some r => { x with status := stOf sts r, definition := r.definition }
+      | none => x := by
+  induction rows using rev_ind with
+  | hnil => intro x; simp [lastMatch]
+  | snoc init r ih =>
+    intro x
+    rw [List.foldl_append, lastMatch_append]
+    simp only [List.foldl_cons, List.foldl_nil]
+    rw [ih x]
+    by_cases hm : x.id = r.ili
+    · have h1 : (r.ili == x.id) = true := by simp [hm]
+      simp only [h1, if_true]
+      unfold upd
+      cases lastMatch init x.id <;> simp [hm]
+    · have h1 : (r.ili == x.id) = false := beq_eq_false_iff_ne.mpr (fun e => hm e.symm)
+      simp only [h1, Bool.false_eq_true, if_false]
+      unfold upd
+      cases lastMatch init x.id <;> simp [hm]
+
+theorem lookupInsert_noop (t : List (Nat × String)) (v : String) (h : t.any (fun r => r.2 == v) = true) : lookupInsert t v = t := by
+  unfold lookupInsert; simp [h]
+
+theorem lookupInsert_keeps (t : List (Nat × String)) (v u : String) (h : t.any (fun r => r.2 == u) = true) :
+    (lookupInsert t v).any (fun r => r.2 == u) = true := by
+  unfold lookupInsert
+  split
+  · exact h
+  · simp only [List.any_append, h, Bool.true_or]
+
+theorem lookupInsert_has (t : List (Nat × String)) (v : String) : (lookupInsert t v).any (fun r => r.2 == v) = true := by
+  unfold lookupInsert
+  split
+  · assumption
+  · simp
+
+theorem fold_lookupInsert_keeps (S : List String) : ∀ (t : List (Nat × String)) (u : String),
+    t.any (fun r => r.2 == u) = true → (S.foldl lookupInsert t).any (fun r => r.2 == u) = true := by
+  induction S with
+  | nil => intro t u h; exact h
+  | cons a S ih => intro t u h; exact ih _ u (lookupInsert_keeps t a u h)
+
+theorem fold_lookupInsert_has (S : List String) : ∀ (t : List (Nat × String)) (v : String), v ∈ S →
+    (S.foldl lookupInsert t).any (fun r => r.2 == v) = true := by
+  induction S with
+  | nil => intro t v h; simp at h
+  | cons a S ih =>
+    intro t v h
+    rcases List.mem_cons.mp h with rfl | h
+    · exact fold_lookupInsert_keeps S _ _ (lookupInsert_has t v)
+    · exact ih _ v h
+
+theorem fold_lookupInsert_noop (S : List String) : ∀ (t : List (Nat × String)),
+    (∀ v ∈ S, t.any (fun r => r.2 == v) = true) → S.foldl lookupInsert t = t := by
+  induction S with
+  | nil => intro t _; rfl
+  | cons a S ih =>
+    intro t h
+    simp only [List.foldl_cons]
+    rw [lookupInsert_noop t a (h a List.mem_cons_self)]
+    exact ih t (fun v hv => h v (List.mem_cons_of_mem _ hv))
+
+/-- idempotence: loading the same index file a second time changes nothing at all -/
+theorem C19_idempotent (db : Db) (rows : List IliRow) : addIli (addIli db rows) rows = addIli db rows := by
+  have hst : addIliStatuses (addIli db rows) rows = addIli db rows := by
+    unfold addIliStatuses
+    rw [fold_lookupInsert_noop]
+    intro v hv
+    rw [addIli_statuses]
+    unfold addIliStatuses
+    exact fold_lookupInsert_has _ _ v hv
+  have hunf : ∀ (d : Db), addIli d rows = rows.foldl iliStep (addIliStatuses d rows) := fun _ => rfl
+  rw [hunf (addIli db rows), hst]
+  rw [fold_update]
+  · have : (addIli db rows).ilis.map (fun x => rows.foldl (fun x r => upd (addIli db rows).ilistatuses r x) x) = (addIli db rows).ilis := by
+      conv => rhs; rw [← List.map_id (addIli db rows).ilis]
+      apply List.map_congr_left
+      intro x hx
+      rw [applyRows_char]
+      cases hl : lastMatch rows x.id with
+      | none => rfl
+      | some r =>
+        obtain ⟨h1, h2⟩ := C19_listed_updated db rows x hx r hl
+        simp only [id]
+        cases x
+        simp_all
+    rw [this]
+  · intro r hr
+    obtain ⟨x, hx, hxi⟩ := C19_listed_present db rows r hr
+    simp only [List.any_eq_true, beq_iff_eq]
+    exact ⟨x, hx, hxi⟩
+
+/-! ### non-vacuity -/
+def demo : Db := { ilis := [⟨1, "i1", 1, none, none⟩, ⟨2, "i2", 3, some "old", none⟩], ilistatuses := [(1, "presupposed"), (2, "proposed"), (3, "active")] }
+def file : List IliRow := [⟨"i1", none, some "first"⟩, ⟨"i3", some "deprecated", none⟩, ⟨"i1", none, some "second"⟩]
+
+example : (addIli demo file).ilis = [⟨1, "i1", 3, some "second", none⟩, ⟨2, "i2", 3, some "old", none⟩, ⟨3, "i3", 4, none, none⟩] := by decide
+example : (addIli demo file).ilistatuses = [(1, "presupposed"), (2, "proposed"), (3, "active"), (4, "deprecated")] := by decide
+
 end WnVerif.Props.C19
